@@ -37,6 +37,9 @@ SCENARIOS = [
     "function f(){ var px = new Proxy({}, { get(t,k){ probe(); return 1 }, has(t,k){ probe(); return true }, ownKeys(t){ probe(); return [] } }); px.a; 'a' in px; Object.keys(px); with (px) { probe(); } }",
     "function f(){ class A { constructor(){ probe() } static m(){ probe() } get y(){ probe(); return 1 } } class B extends A { constructor(){ probe(); super(); probe() } } new B().y; A.m(); try { null.x } catch(e) { probe() } }",
     "function f(){ var s = 0; L: for (var i=0;i<2;i++) { for (var k in {a:1,b:2}) { probe(); try { if (k=='b') continue L; s++ } finally { probe() } } } probe(); switch (s) { case 1: probe(); default: probe() } }",
+    "function f(){ probe(); class K { #s = 1; static m(){ return eval('1') } [probe()](){ } static [probe()] = 2; static { probe() } get #g(){ probe(); return 1 } static t(o){ return #s in o && o.#g } } probe(); K.t(new K) }",
+    "function f(){ async function inner(n){ probe(); await null; probe(); return r(n) } function r(n){ probe(); return n > 0 ? r(n - 1) : 0 } async function outer(){ probe(); await inner(3); probe() } outer(); probe(); }",
+    "function f(){ var cap = 1; function g(){ probe(); return function(){ return cap++ } } probe(); g()(); (function(){ let blk = 2; probe(); return () => blk })()(); }",
     "function f(){ reenter('probe(); try { probe(); throw 1 } catch(e) { probe() } finally { probe() }'); probe(); callfn(function(){ probe(); return 1 }); probe(); }",
 ]
 
@@ -130,7 +133,7 @@ def run_jobs(binp, jobs, wd, tag, trace):
     return [json.loads(l) for l in open(out)]
 
 
-IDLE = "{Cs:0 Ts:0 Is:0 Rs:0 Sp:0 Sb:-1 Jobs:0 Interrupted:false GlobalStash:true}"
+IDLE = "{Cs:0 Ts:0 Is:0 Rs:0 Sp:0 Sb:-1 Jobs:0 Interrupted:false GlobalStash:true PrivEnv:false AsyncRunner:false Prg:false}"
 CFG = """SPECIFICATION Spec
 CONSTANT Deviations = {%s}
 CONSTRAINT HW
